@@ -1,6 +1,7 @@
 //! C14: builder options act the same on fancy and plain patterns.
 
 use crate::common::*;
+use crate::casefold;
 use crate::engine::{self, Out};
 use crate::refsweep::weight;
 use crate::spaces::Space;
@@ -50,7 +51,7 @@ const HOSTS: &[(&str, &str)] = &[("", ""), ("(?=)", ""), ("x", "(?=)"), ("(", ")
 
 pub fn run_c14(cx: &Ctx) -> i32 {
     let k = if cx.quick() { 4 } else { 5 };
-    let space = Space::new().exh("mixed-case", grammar(), k);
+    let space = Space::new().exh("mixed-case", grammar(), k).ctxfill(2, 1, &|_| true);
     let alphabet = vec!['a', 'A', 'b', 'B'];
     let max_len = 3;
     let texts = space::texts(&alphabet, max_len);
@@ -164,7 +165,46 @@ pub fn run_c14(cx: &Ctx) -> i32 {
                     return;
                 }
             };
+            let limit_max = engine::compile_with(&pattern, |b| {
+                b.backtrack_limit(usize::MAX);
+            });
             for text in &texts {
+                // the other entry points (each has its own code path for the two engines, and some
+                // have shortcuts that look at the pattern text): option == inline flag, and a limit
+                // that cannot be reached changes nothing
+                {
+                    t.evaluations += 1;
+                    let battery = |r: &fancy_regex::Regex| -> Vec<String> {
+                        vec![
+                            format!("is_match {:?}", engine::is_match(r, text)),
+                            format!("find_iter {:?}", engine::find_iter_log(r, text).items),
+                            format!("split {:?}", engine::split_log(r, text).items),
+                            format!("replace_all(\"-\") {:?}", engine::replacen_str(r, text, 0, "-")),
+                            format!("replacen(1, \"[$0]\") {:?}", engine::replacen_str(r, text, 1, "[$0]")),
+                        ]
+                    };
+                    let e = battery(&with_prefix);
+                    let g = battery(&opt_true);
+                    for (x, y) in e.iter().zip(g.iter()) {
+                        if x != y && !x.contains("Panic") && !y.contains("Panic") && !x.contains("Err(") && !y.contains("Err(") {
+                            viol(&mut t, text, 0, format!("case_insensitive(true) gives {} but the pattern (?i){} gives {}", y, pattern, x));
+                            break;
+                        }
+                    }
+                    let base = battery(&unset);
+                    match &limit_max {
+                        Ok(lm) => {
+                            let m = battery(lm);
+                            for (x, y) in base.iter().zip(m.iter()) {
+                                if x != y && !x.contains("Err(") {
+                                    viol(&mut t, text, 0, format!("backtrack_limit(usize::MAX) gives {} but no option gives {}", y, x));
+                                    break;
+                                }
+                            }
+                        }
+                        Err(e) => viol(&mut t, text, 0, format!("backtrack_limit(usize::MAX): the pattern does not build: {:?}", e)),
+                    }
+                }
                 for pos in space::offsets(text) {
                     t.evaluations += 1;
                     let e = engine::captures_at(&with_prefix, text, pos);
@@ -216,14 +256,18 @@ pub fn run_c14(cx: &Ctx) -> i32 {
         });
         t
     });
-    let t = Tally::merge_all(tallies);
+    let mut t = Tally::merge_all(tallies);
+    let tc = casefold::sweep(casefold::Which::C14);
+    t.count("casefold_sweep_programs", tc.programs);
+    t.count("casefold_sweep_evaluations", tc.evaluations);
+    t.merge(tc);
     finish(
         cx,
         t,
         Finish {
             rule: format!(
-                "every pattern of {} (mixed-case atoms, inner (?-i:..) and (?i:..) groups, fancy and plain) x every text over {:?} up to length {} x every offset: build(P).case_insensitive(true) == build((?i)P) on all groups, case_insensitive(false) == no option, ample delegate_size_limit / delegate_dfa_size_limit / backtrack_limit == no option; backtrack_limit(1) yields BacktrackLimitExceeded exactly when the search needs more than one backtrack (count read through hook H1) and the unlimited result otherwise; plus: for each large plain piece of {:?} that fails to build under delegate_size_limit(10 / 1000), every fancy host of {:?} embedding it as a delegated piece must fail to build too (CompileError::InnerError); metamorphic, no reference model; non-trivial = cases on which case-insensitivity changes the result",
-                space.describe(), alphabet, max_len, LARGE, HOSTS
+                "every pattern of {} (mixed-case atoms, inner (?-i:..) and (?i:..) groups, fancy and plain) x every text over {:?} up to length {} x every offset: build(P).case_insensitive(true) == build((?i)P) on all groups, case_insensitive(false) == no option, ample delegate_size_limit / delegate_dfa_size_limit / backtrack_limit == no option, backtrack_limit(usize::MAX) == no option, and the same two equalities for is_match, find_iter, split, replace_all(\"-\") and replacen(1, \"[$0]\") on every text; backtrack_limit(1) yields BacktrackLimitExceeded exactly when the search needs more than one backtrack (count read through hook H1) and the unlimited result otherwise; plus: for each large plain piece of {:?} that fails to build under delegate_size_limit(10 / 1000), every fancy host of {:?} embedding it as a delegated piece must fail to build too (CompileError::InnerError); metamorphic, no reference model; non-trivial = cases on which case-insensitivity changes the result; plus a {}",
+                space.describe(), alphabet, max_len, LARGE, HOSTS, casefold::describe(casefold::Which::C14)
             ),
             exhaustive: true,
             bounds: jobj! {"space" => space.describe(), "max_text_len" => max_len, "node_bound" => k},
